@@ -12,6 +12,7 @@ package store
 //@ trusted func (c *core) CopyState() (s State)
 //@   ensures s.HostKey == SpecState[c].HostKey && s.ClusterKey == SpecState[c].ClusterKey
 //@   ensures s.Nodes != nil && __fresh(s.Nodes)
+//@   ensures SpecState[c].Nodes != nil && old(__alloc(SpecState[c].Nodes))
 //@   ensures forall k node.Key :: __in(s.Nodes, k) == __in(SpecState[c].Nodes, k) && s.Nodes[k] == SpecState[c].Nodes[k]
 //@   modifies nothing
 //@ trusted func (c *core) SetState(ctx context.Context, s State)
